@@ -232,12 +232,31 @@ func VerifC19_Purge() {
 		n = 6
 	}
 	cnt := rt.Len("n", 3, n)
+	// versions known from an index only are not on disk: none, or a run of one
+	// or two versions anywhere in the list (thorough: any subset)
+	gapAt, gapLen := cnt, 2
+	if !rt.Thorough() {
+		gapAt = rt.Choice("unavailable-from", cnt+1)
+	}
+	// the versions were added newest first (as a selection leaves them), or
+	// oldest first with no selection since
+	ascending := rt.Bool("added-oldest-first")
 	for i := 0; i < cnt; i++ {
-		rv := addVersion(res, cnt-i, "v"+string(rune('0'+i)))
+		rank := cnt - i
+		if ascending {
+			rank = i + 1
+		}
+		rv := addVersion(res, rank, "v"+string(rune('0'+i)))
 		// purging is paused while blacklisted versions exist: covered by one flag
 		rv.Blacklisted = false
-		rv.Available = true
-		rt.FsCreateFile(rv.storagePath())
+		if rt.Thorough() {
+			rv.Available = rt.Bool("available" + string(rune('0'+i)))
+		} else {
+			rv.Available = !(i >= gapAt && i < gapAt+gapLen)
+		}
+		if rv.Available {
+			rt.FsCreateFile(rv.storagePath())
+		}
 	}
 	if rt.Bool("blacklisted") {
 		res.Versions[rt.Choice("blidx", cnt)].Blacklisted = true
@@ -265,11 +284,17 @@ func VerifC19_Purge() {
 	// newest stable version (fork-free): not a pre-release and every newer one is
 	stableSeen := false
 	further, furtherKept := uint64(0), uint64(0)
+	if ascending {
+		// newest first
+		for i, j := 0, len(before)-1; i < j; i, j = i+1, j-1 {
+			before[i], before[j] = before[j], before[i]
+		}
+	}
 	for _, rv := range before {
 		isNewestStable := rt.All(!rv.PreRelease, !stableSeen)
 		stableSeen = rt.Any(stableSeen, !rv.PreRelease)
 		rt.Assert(rt.Implies(isNewestStable, !removed(rv)), "purge/newest-stable-kept")
-		isFurther := rt.All(rv != active, rv != selected, !isNewestStable)
+		isFurther := rt.All(rv != active, rv != selected, !isNewestStable, rv.Available)
 		further += b2u(isFurther)
 		furtherKept += b2u(rt.All(isFurther, !removed(rv)))
 	}
